@@ -4,7 +4,9 @@ Tie: the command table is regenerated from the imported classes on every run (tr
 compared in Lean with the committed golden table of the pinned revision (`decide +kernel`).
 Observation checker (implementation only): for every pinned class (matched by header) the pinned
 value assignments are rebuilt on the current classes and must serialize to the pinned bytes and
-decode back; enum / flag members present at both revisions must keep their numeric value; headers
+decode back; enum / flag members present at both revisions must keep their numeric value; every value of
+every one-byte enumeration / flag type (listed or not; samples of the wider ones) keeps its wire image in both
+directions (`corpus/C19/enum_wire.json`); headers
 identify classes one-to-one; every Req has exactly one Rsp with the same id.
 """
 import json
@@ -115,6 +117,30 @@ def run(ctx):
             if hasattr(obj, name) and int(getattr(obj, name)) != val:
                 ctx.counterexample("enum-drift", dict(enum=key, member=name), val, int(getattr(obj, name)),
                                    "an enumeration / flag member changed its numeric value")
+
+
+    # wire image of listed and unlisted values: a value an NCP sends that the table does not list (a newer firmware's
+    # status code, reserved flag bits) must travel unchanged in both directions, as at the pinned revision
+    wire = json.load(open(os.path.join(common.VERIF, "corpus", "C19", "enum_wire.json")))
+    for key, vals in wire.items():
+        mod, _, qn = key.rpartition(".")
+        try:
+            obj = importlib.import_module(mod)
+            for part in qn.split("."):
+                obj = getattr(obj, part)
+        except Exception:
+            continue
+        now = mkpinned.enum_wire_of(obj, [int(v) for v in vals])
+        listed = {int(m) for m in obj}
+        for v, (enc, dec) in vals.items():
+            ctx.case(("enum-wire", key, v), nontrivial=int(v) not in listed)
+            ctx.count("enum-wire:%s" % ("listed" if int(v) in listed else "unlisted"))
+            got = now[v]
+            if got != [enc, dec]:
+                ctx.counterexample("enum-wire-drift", dict(enum=key, value=int(v), listed=int(v) in listed),
+                                   dict(encodes_to=enc, decodes_to=dec), dict(encodes_to=got[0], decodes_to=got[1]),
+                                   "a value of an enumeration / flag type no longer has the wire image it had at the pinned revision")
+                break
 
 
 def search(ctx):
